@@ -1,8 +1,8 @@
 ---------------------------- MODULE Gen_FindNodes ----------------------------
 (* Scenario space of C11 (responder side), enumerated exhaustively by TLC.                     *)
 EXTENDS FindNodes
-DistLists == {"empty", "zero", "d256", "mix", "repeat", "over", "all", "toolong", "low"}
-Fills == {"empty", "liveAndUnverified", "fullMax", "fullTight"}
+DistLists == {"empty", "zero", "d256", "mix", "repeat", "over", "overonly", "all", "toolong", "low"}
+Fills == {"empty", "liveAndUnverified", "movedAfterCheck", "fullMax", "fullTight"}
 Classes == {"loop", "lan", "pub"}
 VARIABLES c, emitted
 Init == /\ emitted = FALSE
